@@ -275,6 +275,14 @@ static void run_C06(const Args &a, long cs) {
 	Snap st = snap(T), sr = snap(R);
 	df = snap_diff(st, sr);
 	if (!df.empty()) viol("C06:roundtrip:field-differs:" + df, "{\"table\":" + s.full_json() + "}");
+	// a file name ending in .gz makes cfitsio compress the output; the reader recognises compressed files by content
+	if (disk && r.coin(0.25)) {
+		std::string gz = g_tmp + "/rt." + std::to_string(getpid()) + ".fits.gz"; phase("write_fits to a .gz name, read back"); bool okz = true; std::string wz;
+		try { T.write_fits(gz); Table Rz; Rz.read_fits(gz); std::string dz = snap_diff(st, snap(Rz)); if (!dz.empty()) viol("C06:roundtrip(gzip):field-differs:" + dz, "{\"table\":" + s.full_json() + "}"); }
+		catch (std::exception &e) { okz = false; wz = e.what(); }
+		if (!okz) viol("C06:roundtrip(gzip):write-or-read-threw", "{\"what\":" + jstr(wz) + ",\"table\":" + s.brief() + "}"); else count("roundtrips-gzip");
+		unlink(gz.c_str());
+	}
 	bool hasnan = false; for (float c : st.coef) if (std::isnan(c)) hasnan = true;
 	if (!hasnan) { if (!(R == T) || (R != T)) viol("C06:roundtrip:operator==-false", "{\"table\":" + s.full_json() + "}"); count("equality-checks"); }
 	else count("tables-with-NaN-coefficients(exempt-from-==)");
